@@ -293,7 +293,7 @@ func TestDemoC10c_RangeDeleteKeepsSeriesWithPointsInOtherFile(t *testing.T) {
 	}
 }
 
-// Witness for (*Engine).deleteSeriesRange$4/ensures:every_file_is_consulted (model: the cross-out pass returns
+// Witness for (*Engine).deleteSeriesRange$6/ensures:every_file_is_consulted (model: the cross-out pass returns
 // without consulting a file's keys). The scenario above (written by the seeding sub-agent for seed C10c, kept
 // verbatim) writes a series into two files with disjoint time ranges, range-deletes over the first file's range
 // and checks the series is still listed and its remaining points readable (both index types, also after restart).
